@@ -298,3 +298,6 @@ def replay(cs, env):
         if c['meta'].get('kind') == 'sequence':
             judge(res, c, cr)
     return res
+
+
+RULE = RULE + ' Every text is also checked under MATH, ASCII and again the estimated syntax on the same objects; inputs that fail only in a later internal pass (recursion re-typing), warning-only inputs, all ordered pairs of six declarations of F7 around each property-argument call.'
